@@ -1,6 +1,7 @@
 package conc
 
 import (
+	"bufio"
 	"context"
 	"encoding/json"
 	"fmt"
@@ -179,7 +180,7 @@ type srvRun struct {
 
 	mu      sync.Mutex
 	gates   map[string]chan gateMsg // by params text
-	started []string               // params of running handlers (entered, not yet gated)
+	started []string                // params of running handlers (entered, not yet gated)
 	cbctx   map[int]*mctx
 	cbOpen  []int // callbacks issued and not yet returned
 	nops    int
@@ -226,8 +227,8 @@ func (a assigner) Assign(ctx context.Context, method string) jrpc2.Handler {
 	return nil
 }
 
-func newSrvRun(cfg srvConfig) *srvRun {
-	r := &srvRun{cfg: cfg, log: &logger{}, sc: &sched{on: true}, gates: map[string]chan gateMsg{}, cbctx: map[int]*mctx{}}
+func newSrvRun(cfg srvConfig, out *bufio.Writer) *srvRun {
+	r := &srvRun{cfg: cfg, log: &logger{out: out}, sc: &sched{on: true}, gates: map[string]chan gateMsg{}, cbctx: map[int]*mctx{}}
 	r.srv = jrpc2.NewServer(assigner{r}, &jrpc2.ServerOptions{Concurrency: cfg.K, AllowPush: cfg.push, DisableBuiltin: !cfg.builtin})
 	var ms []string
 	for _, m := range cfg.methods {
@@ -295,6 +296,14 @@ func (r *srvRun) feedErr(kind string) {
 	}
 	r.log.item("env\tfeed\terr\t%s", kind)
 	r.ch.feeds <- feedItem{nil, err}
+	r.settleEnv()
+}
+
+func (r *srvRun) sendFault(on bool) {
+	r.log.item("env\tsendfault\t%s", b01(on))
+	r.ch.mu.Lock()
+	r.ch.failSend = on
+	r.ch.mu.Unlock()
 	r.settleEnv()
 }
 
